@@ -1,1 +1,131 @@
-pub fn check(_tier: &str) -> i32 { 2 }
+//! E7: exhaustive grids through the real default method Solver::gap() (C17) and the width combinators (C13).
+use crate::report::*;
+use ddo::*;
+use serde_json::{json, Value};
+use std::sync::Arc;
+
+struct Stub { lb: isize, ub: isize }
+impl Solver for Stub {
+    fn maximize(&mut self) -> Completion { Completion { is_exact: false, best_value: None } }
+    fn best_value(&self) -> Option<isize> { None }
+    fn best_solution(&self) -> Option<Solution> { None }
+    fn best_lower_bound(&self) -> isize { self.lb }
+    fn best_upper_bound(&self) -> isize { self.ub }
+    fn set_primal(&mut self, _: isize, _: Solution) {}
+    fn explored(&self) -> usize { 0 }
+}
+
+fn cls(x: isize) -> &'static str { if x == isize::MIN { "min" } else if x == isize::MAX { "max" } else if x < 0 { "neg" } else if x == 0 { "zero" } else { "pos" } }
+
+pub fn grid(thorough: bool) -> Vec<isize> {
+    let mut g: Vec<isize> = vec![isize::MIN, isize::MIN + 1, -(1 << 62), -1_000_000_000, -7, -2, -1, 0, 1, 2, 7, 1_000_000_000, 1 << 62, isize::MAX - 1, isize::MAX,
+                                 (1 << 24) + 1, -((1 << 24) + 1), (1 << 53) + 1, -((1 << 53) + 1)];
+    if thorough {
+        for k in 0..63 { g.push(1 << k); g.push(-(1 << k)); g.push((1 << k) + 1); g.push(-(1 << k) - 1); g.push((1 << k) - 1); }
+        for x in -40..=40 { g.push(x); }
+    } else {
+        for x in -5..=5 { g.push(x); }
+    }
+    g.sort();
+    g.dedup();
+    g
+}
+
+pub fn check(tier: &str) -> i32 {
+    let rep = Reporter::new("C17", tier);
+    let g = grid(rep.thorough());
+    let mut pairs = 0u64;
+    let mut nontrivial = 0u64;
+    let mut outcomes: std::collections::BTreeMap<String, u64> = Default::default();
+    let mut samples = vec![];
+    for lb in g.iter().copied() {
+        for ub in g.iter().copied() {
+            if lb > ub { continue; }
+            pairs += 1;
+            let s = Stub { lb, ub };
+            let r = std::panic::catch_unwind(|| s.gap());
+            let replay = json!({"engine": "gap", "lb": lb, "ub": ub});
+            let gp = match r { Err(_) => { rep.violation(format!("gap:panic:lb={}:ub={}", cls(lb), cls(ub)), format!("gap() panicked for lb={} ub={}: {}", lb, ub, crate::run::take_panic_msg()), replay); continue; } Ok(x) => x };
+            let finite = lb != isize::MIN && ub != isize::MAX;
+            if finite && lb != ub { nontrivial += 1; }
+            *outcomes.entry(if gp.is_nan() { "nan".to_string() } else if gp == 0.0 { "0".to_string() } else if gp == 1.0 { "1".to_string() } else if gp < 0.0 { "<0".to_string() } else if gp < 1.0 { "(0,1)".to_string() } else { ">1".to_string() }).or_insert(0) += 1;
+            if samples.len() < 6 && finite && lb != ub && (lb < 0) != (ub < 0) { samples.push(json!({"lb": lb, "ub": ub, "gap": format!("{}", gp)})); }
+            let mut bad = |sig: String, what: String| rep.violation(sig, what, replay.clone());
+            if gp.is_nan() { bad(format!("gap:nan:lb={}:ub={}", cls(lb), cls(ub)), format!("gap() is NaN for lb={} ub={}", lb, ub)); continue; }
+            if gp < 0.0 { bad(format!("gap:negative:lb={}:ub={}", cls(lb), cls(ub)), format!("gap() = {} < 0 for lb={} ub={}", gp, lb, ub)); }
+            if !finite {
+                if gp != 1.0 { bad(format!("gap:infinite-bound-not-1:lb={}:ub={}", cls(lb), cls(ub)), format!("gap() = {} although a bound is infinite (lb={} ub={})", gp, lb, ub)); }
+                continue;
+            }
+            if (gp == 0.0) != (lb == ub) { bad(format!("gap:zero-iff-equal:lb={}:ub={}", cls(lb), cls(ub)), format!("gap() = {} for lb={} ub={} (must be 0 exactly when the bounds coincide)", gp, lb, ub)); }
+            let same_sign = (lb >= 0 && ub >= 0) || (lb <= 0 && ub <= 0);
+            if same_sign && gp > 1.0 { bad(format!("gap:above-1:lb={}:ub={}", cls(lb), cls(ub)), format!("gap() = {} > 1 for same-sign bounds lb={} ub={}", gp, lb, ub)); }
+        }
+    }
+    // solver runs whose optimum is 0 or negative
+    let (runs, zero_neg) = solver_part(&rep);
+    let cov = json!({
+        "evaluations": pairs + runs, "distinct_nontrivial": nontrivial,
+        "rule": "every pair lb <= ub of the grid goes through the real default method Solver::gap() of a stub solver exposing these bounds: not NaN, >= 0, == 1 when lb == MIN or ub == MAX, == 0 exactly when lb == ub (finite), <= 1 when both finite bounds have the same sign (0 counts as either); plus real sequential solver runs on instances whose optimum is zero or negative (gap() must be 0 after an exact run); non-trivial = pairs of distinct finite bounds",
+        "samples": samples, "exhaustive": true, "grid": g.iter().map(|x| x.to_string()).collect::<Vec<_>>(), "grid_pairs": pairs, "outcome_classes": outcomes,
+        "solver_runs": runs, "solver_runs_with_zero_or_negative_optimum": zero_neg,
+    });
+    rep.finish("exploration", cov, vec!["the grid contains 0, +-1, small, huge, f32/f64 rounding edges, MIN/MAX and their neighbours".to_string()])
+}
+
+fn solver_part(rep: &Reporter) -> (u64, u64) {
+    use crate::family::*;
+    use crate::model::*;
+    use crate::run::*;
+    let mut runs = 0;
+    let mut zn = 0;
+    let fam = family("TM-0c");
+    let cfgs = [Cfg { dd: DdKind::Lel, cache: false, nodup: false, width: 1 }, Cfg { dd: DdKind::Pooled, cache: true, nodup: true, width: 2 }];
+    for idx in 0..fam.count() {
+        let m = fam.build(idx, Variant::BASE);
+        for cfg in cfgs.iter() {
+            let out = run_seq(m.as_ref(), &RunSpec::plain(*cfg));
+            runs += 1;
+            if let Some(o) = m.opt() { if o <= 0 { zn += 1; } }
+            if out.panicked.is_some() { continue; }
+            if out.gap.is_nan() { rep.violation(format!("gap:nan:lb={}:ub={}", cls(out.lb), cls(out.ub)), format!("after maximize(): lb={} ub={} gap() is NaN", out.lb, out.ub), json!({"engine": "gap", "lb": out.lb, "ub": out.ub, "instance": fam.id_json(idx, Variant::BASE)})); }
+            else if out.best_value.is_some() && out.lb == out.ub && out.gap != 0.0 { rep.violation(format!("gap:zero-iff-equal:lb={}:ub={}", cls(out.lb), cls(out.ub)), format!("after an exact run lb=ub={} but gap() = {}", out.lb, out.gap), json!({"engine": "gap", "lb": out.lb, "ub": out.ub})); }
+        }
+    }
+    (runs, zn)
+}
+
+/// C13, second half: the width combinators never yield zero (exhaustive grid)
+pub fn width_grid(rep: &Reporter) -> Value {
+    let mut cases = 0u64;
+    let mut zero_inner = 0u64;
+    let sp = |len: usize| SubProblem { state: Arc::new(0u8), value: 0, path: vec![Decision { variable: Variable(0), value: 0 }; len], ub: 0, depth: len };
+    let mut check = |name: String, w: usize, inner: usize| {
+        cases += 1;
+        if inner == 0 { zero_inner += 1; }
+        if w == 0 { rep.violation("width:combinator-zero".to_string(), format!("{} yields a maximum width of 0", name), json!({"engine": "width-grid", "case": name})); }
+    };
+    for plen in 0..=5usize {
+        let p = sp(plen);
+        for x in 0..=5usize {
+            for k in 0..=5usize {
+                check(format!("Times({},FixedWidth({}))", k, x), Times(k, FixedWidth(x)).max_width(&p), x);
+                if plen <= x { check(format!("Times({},NbUnassignedWidth({})) path {}", k, x, plen), Times(k, NbUnassignedWidth(x)).max_width(&p), x - plen); }
+                for k2 in 1..=5usize {
+                    check(format!("DivBy({},Times({},FixedWidth({})))", k2, k, x), DivBy(k2, Times(k, FixedWidth(x))).max_width(&p), x);
+                    check(format!("Times({},DivBy({},FixedWidth({})))", k, k2, x), Times(k, DivBy(k2, FixedWidth(x))).max_width(&p), x);
+                    if plen <= x {
+                        check(format!("DivBy({},Times({},NbUnassignedWidth({}))) path {}", k2, k, x, plen), DivBy(k2, Times(k, NbUnassignedWidth(x))).max_width(&p), x - plen);
+                        check(format!("Times({},DivBy({},NbUnassignedWidth({}))) path {}", k, k2, x, plen), Times(k, DivBy(k2, NbUnassignedWidth(x))).max_width(&p), x - plen);
+                    }
+                }
+            }
+            for k2 in 1..=5usize {
+                check(format!("DivBy({},FixedWidth({}))", k2, x), DivBy(k2, FixedWidth(x)).max_width(&p), x);
+                if plen <= x { check(format!("DivBy({},NbUnassignedWidth({})) path {}", k2, x, plen), DivBy(k2, NbUnassignedWidth(x)).max_width(&p), x - plen); }
+                for k3 in 1..=5usize { check(format!("DivBy({},DivBy({},FixedWidth({})))", k2, k3, x), DivBy(k2, DivBy(k3, FixedWidth(x))).max_width(&p), x); }
+            }
+        }
+    }
+    json!({"cases": cases, "cases_with_zero_inner_width": zero_inner, "rule": "Times(k,X), DivBy(k',X) and their nestings of depth 2 for k in 0..=5, k' in 1..=5, X in FixedWidth(0..=5) / NbUnassignedWidth(n) with every path length <= n <= 5: result >= 1"})
+}
